@@ -11,6 +11,8 @@
     not rpcPing/rpcPong, handshake-phase types and size for negative sequence numbers). *)
 From Coq Require Import ZArith.
 From TLV Require Import Prim.PrimModel Frame.FrameModel Frame.FrameCrc Frame.FrameProofs Frame.FrameCrypt.
+(* the extraction of the "frame" family covers both models; keep the other one built with this file *)
+From TLV Require Frame.FrameHdrModel.
 Open Scope N_scope.
 
 (** The writer emits exactly [frames]: CRC of a packet in front of the next header or at the flush. *)
